@@ -41,6 +41,8 @@ Report == LET r == Obs[i] IN
             ELSE IF r.kind = "same" THEN (IF r.a = r.b THEN TRUE ELSE PrintT(<<"DISAGREE", i, "source-changed", 0>>))
             ELSE IF r.kind = "status" THEN (IF StatusSound(r) THEN TRUE ELSE PrintT(<<"DISAGREE", i, "status", 0>>))
             ELSE /\ IF StatusOK(r) THEN TRUE ELSE PrintT(<<"DISAGREE", i, "live-status", 0>>)
+                 \* a link is fed only by responses of the operation it is declared on
+                 /\ IF r.src = r.from THEN TRUE ELSE PrintT(<<"DISAGREE", i, "live-source", 0>>)
                  /\ IF BodyOK(r.body, r.x) THEN TRUE ELSE PrintT(<<"DISAGREE", i, "live-body", 0>>)
                  /\ \A n \in 1..Len(r.params) : IF ParamOK(r.params[n], r.x, r.body.strict) THEN TRUE ELSE PrintT(<<"DISAGREE", i, "live-param", n>>)
 =============================================================================
